@@ -46,10 +46,11 @@ func c07OverlapSpace() *sup.Space {
 		orders = append(orders, o)
 	}
 	nk := int64(len(kids))
-	size := int64(len(orders)) * nk * nk * int64(len(parents)) * 2 * 2
+	size := int64(len(orders)) * nk * nk * int64(len(parents)) * 2 * 3
 	return &sup.Space{Name: "overlapped-and-abandoned-block-builders", Size: func(*sup.Ctx) int64 { return size }, Run: func(i int64, w *sup.W) {
-		abandoned := i%2 == 1
-		i /= 2
+		prelude := int(i % 3) // 0 nothing; 1 a builder is filled and abandoned; 2 a lookup of a fact with unseen strings
+		abandoned := prelude == 1
+		i /= 3
 		reloaded := i%2 == 1
 		i /= 2
 		chain := parents[i%int64(len(parents))]
@@ -71,6 +72,12 @@ func c07OverlapSpace() *sup.Space {
 			ab := parent.CreateBlock()
 			hx.FillBlock(ab, refdl.Block{Facts: []refdl.Atom{atom("label", rx.Str("abandoned"), rx.Str("final"))}, Rules: []refdl.Rule{rule(atom("draft", vx), atom("scratch", vx))}})
 			desc = append(desc, "X:create+fill(never built)")
+			w.Stats().Transitions++
+		}
+		if prelude == 2 {
+			parent.GetBlockID(hx.Fact(atom("label", rx.Str("looked-up-only"), rx.Str("final"))))
+			parent.GetBlockID(hx.Fact(atom("owner", rx.Str("looked-up-too"), rx.Int(1))))
+			desc = append(desc, "GetBlockID(facts with unseen strings)")
 			w.Stats().Transitions++
 		}
 		var bb [2]biscuit.BlockBuilder
